@@ -28,7 +28,7 @@ CLAIMS = {
  "C19": "Proved for every hand state: auto-play yields ready, check, fold, a payment of exactly the posted ante / blind, or nothing — never call / bet / raise / all-in — with the precedence ready > check > fold > pay; pass at once; suspended: at once; otherwise the time bank is armed with the action time and nothing happens before. Order of the if-chain is a regenerated fact; real playerRunner compared on thousands of real states incl. timed cases.",
  "C20": "Proved: for every hand state and any table status a non-system observer is shown no deck, no burned cards, no hole cards / strength while the hand runs and none of folded players after it closed (filter condition is a regenerated fact; AsObserver is a monitored contract); in the heap model of the adapter's marshal/unmarshal copy a write through one actor's copy reaches nobody else. Partial: aliasing itself is checked at run time (pointers, byte equality, tamper test) on every case.",
  "C16": "Partial (a theorem cannot exhibit a schedule). Proved: the lock discipline over regenerated facts; a successful fixed or random assignment never touches an occupied seat and a refused one changes nothing; the ledger balances after every sequence (hence every order of racing calls); a wager action is accepted only from the current player of the state it meets, so two different players cannot both be accepted against one state. Searched every run: goroutine bursts linearised from in-lock notifications and replayed through the TB model (every intermediate and the final state incl. seat manager), simultaneous submissions at every betting decision, parallel seat-manager assignments; process crash = observation.",
- "C17": "Forwarding discipline decided over the whole regenerated manager table (every method: lookup, not-found error, same-named engine method, arguments in order, returns its result; exactly Close/Release delete, after the call); isolation / forwarding / not-found / forgotten-after-close proved for the registry model over an arbitrary engine.",
+ "C17": "Forwarding discipline decided over the whole regenerated manager table (every method: lookup, not-found error, same-named engine method, arguments in order, returns its result; exactly Close/Release delete, after the call); isolation / forwarding / not-found / forgotten-after-close proved for the registry model over an arbitrary engine; behavioural tie: all 22 forwarding methods driven through one shared manager holding every table of the run (mgr mode), per-table traces replayed through the TB / HD models, the call log through the MG registry model, an idle twin table byte-compared around every call.",
 }
 
 def main():
@@ -52,7 +52,7 @@ def main():
     m = {"version": 1, "setup_cmd": "./setup.sh",
          "hooks": {"guard": "verif", "enable": "go build -tags verif (harness module replaces github.com/weedbox/pokertable => /repo)",
                    "baseline_off_cmd": "cd /repo && GOFLAGS=-mod=mod GOPROXY=off GOSUMDB=off go test -mod=mod -json -vet=off -count=1 -timeout 25m ./...",
-                   "source_commits": ["d0f1774"], "add_only": True},
+                   "source_commits": ["d0f1774", "40b9249"], "add_only": True},
          "engines": [{"name": "lean-proof+differential", "path": "/verif/check", "serves_properties": claimed,
                       "kind_free_text": "Lean 4 models + theorems (lean/), Go differential harness (harness/), go/ast fact extractor (extract/), python orchestrator (check)"}],
          "checks": checks, "not_applicable": na,
